@@ -25,6 +25,9 @@ MODELS_C12 = [
     "m16_two_parking_writers_one_credit_vs_grant",
     "m17_two_parking_writers_one_credit_vs_close",
     "m18_parked_writer_vs_local_shutdown",
+    "m19_bridge_waits_for_credit_vs_acknowledge",
+    "m20_bridge_waits_for_credit_vs_close",
+    "m21_bridge_vs_acknowledge_vs_close",
 ]
 # Models whose unbounded DPOR search is expensive: preemption bounds per tier (None = unbounded).
 # Measured on the unchanged tree: m12 unbounded 4.1e5 interleavings / 18 s; m14 unbounded 1.2e7 / 410 s;
@@ -38,7 +41,9 @@ MODELS_C07 = ["m7_concurrent_flow_id_allocation"]
 # an abort must reach a writer parked on credit (part of C06's decision: sub-poll interleavings)
 MODELS_C06 = ["m2_writer_vs_close", "m6_writer_with_credit_vs_close", "m9_writer_vs_acknowledge_then_close"]
 # every write completes: a writer parked on credit is woken by every grant (part of C04's decision: sub-poll interleavings)
-MODELS_C04 = ["m1_writer_vs_acknowledge", "m3_two_writes_vs_acknowledge", "m8_three_writes_two_acknowledges", "m11_writer_vs_two_granting_threads"]
+MODELS_C04 = ["m1_writer_vs_acknowledge", "m3_two_writes_vs_acknowledge", "m8_three_writes_two_acknowledges", "m11_writer_vs_two_granting_threads", "m19_bridge_waits_for_credit_vs_acknowledge"]
+# the bridge parked on credit is woken by a grant and by a close (part of C13's decision: sub-poll interleavings)
+MODELS_C13 = ["m19_bridge_waits_for_credit_vs_acknowledge", "m20_bridge_waits_for_credit_vs_close", "m21_bridge_vs_acknowledge_vs_close"]
 # credit conservation under racing grants (part of C03's decision)
 MODELS_C03 = ["m1_writer_vs_acknowledge", "m3_two_writes_vs_acknowledge", "m4_writer_vs_acknowledge_vs_close", "m8_three_writes_two_acknowledges"]
 
